@@ -8,8 +8,8 @@ EXPLANATION = ("L1 reply senders are owned only by the driver's two routing maps
                "a stream error (Some(Err)) is handed to the response arm and every path on it returns Err, as does every path of the request arm on which the socket write failed, and an arm awaits nothing but the driver's own transport (never a channel send, lock or timer whose completion is up to a consumer); L3 on the caller side every send / recv / await "
                "on a channel is propagated with `?`, matched into an Err return or (finish only) logged - never unwrapped, never retried (the stream's stepping functions are evaluated from the values of the stream state "
                "in which their one referencing shim reaches the call, so a branch on an excluded state is not an answer to a closed channel); "
-               "L4 the request send (with `?`) precedes every await in the operation issue point; L5 the Unbind arm shuts the socket down "
-               "and closes the sink before acknowledging, and the acknowledgement is sent for every non-Single operation; L6 the one-operation driver (StartTLS set-up) hands the connection back only on paths that have established that no reply is owed: the flag such a path tests is shown, by induction over the arms' enumerated paths, to become true only where a reply was sent on the sender taken out of the result map under the decoded ID; L7 the transport wrapper's AsyncRead / AsyncWrite methods each delegate, per variant, to the same method of the wrapped stream (shutdown reaches the socket of every transport kind); L9 on every path of the request arm on which the operation is Unbind the driver loop is left, so the reply senders of operations still waiting are dropped. Not decided: "
+               "L4 the request send (with `?`) precedes every await in the operation issue point; L5 on the enumerated paths of the request arm: every path that serves an Unbind has awaited the transport's shutdown "
+               "and the sink's close before it acknowledges; every path on which the operation is not Single and the driver goes on sends exactly one acknowledgement on the reply sender that came with the request (sends on other senders are not acknowledgements of this request), a path a Single operation takes sends none; L6 the one-operation driver (StartTLS set-up) hands the connection back only on paths that have established that no reply is owed: the flag such a path tests is shown, by induction over the arms' enumerated paths, to become true only where a reply was sent on the sender taken out of the result map under the decoded ID; L7 the transport wrapper's AsyncRead / AsyncWrite methods each delegate, per variant, to the same method of the wrapped stream (shutdown reaches the socket of every transport kind); L9 on every path of the request arm on which the operation is Unbind the driver loop is left, so the reply senders of operations still waiting are dropped. Not decided: "
                "liveness itself (tokio wakes waiters; a stalled write eventually fails; select! fairness).")
 TRUSTED = ['dropping a tokio Sender wakes and fails its receiver', 'tokio select!/scheduler fairness']
 UNDECIDED = ['liveness under the scheduler', 'fault injection at every byte boundary (dynamic notion)']
@@ -318,46 +318,104 @@ def run(ctx):
             if sem.failed(o, lambda v: sem.has(v, lambda x: x[0] == 'call' and x[3] == sid)):
                 ctx.add('L4.send-propagates', O.path, loc(node), sem.is_err_result(o.val) and not aws, 'a failed request send (driver gone) is not returned to the caller at once')
 
-    # ---- L5 unbind
+    # ---- L5 unbind / the acknowledgement of a request the driver concludes itself.  Decided on the enumerated paths of the request
+    # arm (helpers expanded, logging skipped), not on where a `send` stands in the text:
+    #   * the acknowledgement of the request being served is a delivery on the reply sender that came with the request tuple (TX) -
+    #     a send on any other sender of that type (one taken out of a routing map, say) is not an acknowledgement of this request
+    #     and is none of L5's business (C13 K10 / C01 decide what may be sent to other operations);
+    #   * every path on which the operation can be something other than Single and on which the driver goes on (not the return
+    #     with the socket-write error) acknowledges exactly once; a path on which it can be Single never does (its reply is the
+    #     server's response);
+    #   * on an Unbind path the transport's shutdown and the sink's close have both been awaited before the acknowledgement.
     req = C.arms['request']
-    def in_arm(n, variant):
-        return any(c[0] == 'arm' and hirq.pat_variant(c[1]['arms'][c[2]]['pat']) == variant for c in hirq.conditions(L.context(n)))
-    shut = [n for n, c in walk(req['body']) if n['k'] == 'MethodCall' and n['name'] == 'shutdown' and in_arm(n, 'LdapOp::Unbind')]
-    close = [n for n, c in walk(req['body']) if n['k'] == 'MethodCall' and n['name'] == 'close' and in_arm(n, 'LdapOp::Unbind') and 'Framed<' in hirq.strip_refs(n['recv'].get('ty', ''))]
-    acks = [n for n, c in walk(req['body']) if n['k'] == 'MethodCall' and n['name'] == 'send' and hirq.strip_refs(n['recv'].get('ty', '')) == anchors.T_RESULT_SENDER]
-    ctx.add('L5.unbind-shutdown', 'unbind arm', loc(req['body']), len(shut) == 1, 'Unbind does not shut the transport down')
-    ctx.add('L5.unbind-close', 'unbind arm', loc(req['body']), len(close) == 1, 'Unbind does not close the framed sink')
-    ctx.add('L5.ack', 'request arm', loc(req['body']), len(acks) == 1, 'expected one acknowledgement send for non-Single operations')
-    o_req = hirq.project(L.origin_of_bind(req['bindings'][0][0]), ('variant', 'Some', 0))
-    for a in acks:
-        ctx.add('L5.ack-target', 'request arm', loc(a), L.origin(a['recv']) == hirq.project(o_req, ('tup', 4)), 'the acknowledgement is not sent to the request\'s reply channel')
-        ctx.add('L5.ack-after-unbind-work', 'request arm', loc(a), all(L.before(x, a) for x in shut + close), 'Unbind is acknowledged before the transport is closed')
-        ctx.add('L5.ack-not-under-single', 'request arm', loc(a), not in_arm(a, 'LdapOp::Single'), 'acknowledgement sent for Single operations')
-        # reachable from every non-Single arm: no diverging arm among Search / Abandon / Unbind
-        m = [n for n, c in walk(req['body']) if n['k'] == 'Match' and any(hirq.pat_variant(x['pat']) == 'LdapOp::Unbind' for x in n['arms'])]
-        for mm in m:
-            for arm in mm['arms']:
-                v = hirq.pat_variant(arm['pat'])
-                if v and v != 'LdapOp::Single':
-                    ctx.add('L5.ack-reached', v, loc(arm['body']), not hirq.diverges(arm['body']) and L.before(mm, a),
-                            'the %s arm never reaches the acknowledgement: its caller would wait forever' % v)
+    REQ = ('variant', driver.ARM, 'Some', 0)
+    OP, TX = ('field', REQ, '1'), ('field', REQ, '4')      # components of anchors.T_REQ_TUPLE (by which the request channel is anchored)
+    OPS = ('LdapOp::Single', 'LdapOp::Search', 'LdapOp::Abandon', 'LdapOp::Unbind')
+    def recv_of(node):
+        return node.get('recv') if node.get('k') == 'MethodCall' else ((node.get('args') or [None])[0] if node.get('k') == 'Call' else None)
+    def awaited_calls(o, name, ty_ok):
+        """event indices of the awaits of a call `name` on (something of) the transport"""
+        out = []
+        for i, cal, args, node in sem.calls(o, lambda c: c.rsplit('::', 1)[-1] == name):
+            r = recv_of(node)
+            if r is None or not ty_ok(hirq.strip_refs(hirq.peel_refs(r).get('ty') or '')):
+                continue
+            t = ('call', cal, tuple(args), node.get('id'))
+            out += [j for j, at, _n in sem.awaits(o) if at == t and j > i]
+        return out
+    n_l5 = 0
+    reached = {v: [] for v in OPS[1:]}
+    for o in driver.arm_paths(C, 'request')[0]:
+        if o.kind == 'div' or absx.pc_variant(o.st.pc, lambda v: v == driver.ARM, 'Some') is not True:
+            continue
+        if o.kind == 'ret' and sem.is_err_result(o.val):
+            continue        # the driver ends with an error: every sender is dropped with it
+        if any(sem.failed(o, lambda v, w=('call', cal, tuple(args), node.get('id')): v == ('await', w))
+               for i, cal, args, node in sem.calls(o, lambda c: c.rsplit('::', 1)[-1] == 'send') if 'Framed<' in sem.recv_ty(node)):
+            continue        # the request could not be written to the transport: it was not served, nothing is to be acknowledged (L2 decides what a failed write leads to)
+        kind = {v: sem.variant_truth(o.st.pc, lambda t: t == OP, v, OPS) for v in OPS}
+        which = next((v for v in OPS if kind[v] is True), None)
+        sig = '%s|%s|%s' % ((which or 'kind not looked at').rsplit('::', 1)[-1], o.kind,
+                            ','.join(('' if t else '!') + absx.fmt(sem.strip_site(a[1]))[:24] for a, t in o.st.pc if a[0] == 'is' and a[2] in ('Ok', 'Some') and a[1] != driver.ARM)[:120])
+        res_sends = driver.sends(o, anchors.T_RESULT_SENDER)
+        own = [(i, args, node) for i, args, node in res_sends if args[0] == TX]
+        others = [(i, args, node) for i, args, node in res_sends if args[0] != TX]
+        n_l5 += 1
+        if kind['LdapOp::Single'] is not False:
+            ctx.add('L5.ack-not-under-single', sig, loc(own[0][2]) if own else loc(req['body']), not own,
+                    'a path of the request arm that a Single operation takes sends the driver\'s own acknowledgement on the request\'s reply channel: its caller gets that instead of the server\'s response')
+        # `oneshot::Sender::is_closed()` is true iff the receiver was dropped or closed, and stays true: on a path that has found the
+        # request's own reply channel closed nobody is there to acknowledge to (a send could only fail), so none is owed
+        nobody_listens = any(t is True and a[0] == 'call' and a[1].endswith('oneshot::Sender::<T>::is_closed') and tuple(a[2]) == (TX,) for a, t in o.st.pc)
+        if kind['LdapOp::Single'] is not True:
+            what = (which or 'Search / Abandon / Unbind').rsplit('::', 1)[-1]
+            ctx.add('L5.ack', sig, loc(req['body']), len(own) == 1 or (nobody_listens and not own),
+                    'a path of the request arm that serves %s %s request sends %d acknowledgements on the request\'s own reply channel (expected exactly one): %s'
+                    % ('an' if what[0] in 'AU' else 'a', what, len(own), 'its caller is failed instead of being told that the request was served' if not own else 'the second send cannot be delivered'))
+            ctx.add('L5.ack-target', sig, loc(others[0][2]) if others else loc(req['body']), bool(own) or not others,
+                    'the acknowledgement is not sent to the request\'s reply channel but on %s' % ', '.join(absx.fmt(sem.strip_site(a[0]))[:50] for _i, a, _n in others))
+            if which in reached:
+                reached[which].append(bool(own))
+        if kind['LdapOp::Unbind'] is True:
+            shut = awaited_calls(o, 'shutdown', lambda ty: ty in transport_tys)
+            close = awaited_calls(o, 'close', lambda ty: ty.startswith('tokio_util::codec::framed::Framed<'))
+            ctx.add('L5.unbind-shutdown', sig, loc(req['body']), bool(shut), 'a path of the request arm that serves an Unbind does not shut the transport down (no awaited shutdown of the driver\'s transport)')
+            ctx.add('L5.unbind-close', sig, loc(req['body']), bool(close), 'a path of the request arm that serves an Unbind does not close the framed sink (no awaited close of the driver\'s transport)')
+            for i, args, node in own:
+                ctx.add('L5.ack-after-unbind-work', sig, loc(node), all(j < i for j in shut + close),
+                        'Unbind is acknowledged before the transport is closed')
+    for v, acks_ in reached.items():
+        ctx.add('L5.ack-reached', v, loc(req['body']), bool(acks_) and all(acks_),
+                'the %s operation never reaches the acknowledgement on %s: its caller would %s' % (v, 'any path of the request arm' if not any(acks_) else 'some path of the request arm', 'find no path that serves it (none was enumerated)' if not acks_ else 'be failed although the request was served'))
+    ctx.floor('L5', 'paths of the request arm on which the driver goes on serving', n_l5, 4)
 
     # ---- L9 Unbind ends the driver: after the transport was shut down nothing more can arrive that the client should wait for;
     # a driver that goes on polling keeps every reply sender alive, so operations still waiting hang for as long as the peer
     # keeps its side of the connection open.  On every path of the request arm on which the operation is Unbind the loop is left.
     VARS = ('LdapOp::Single', 'LdapOp::Search', 'LdapOp::Abandon', 'LdapOp::Unbind')
-    n_unbind = 0
+    # Which paths: those on which the operation is known to be Unbind, and those that go on serving without having looked at the kind
+    # of operation at all (an Unbind takes such a path too: what Unbind does must not depend on anything else the arm may test first,
+    # such as whether its caller still listens).  Not asked of a path that ends the driver with an error.
+    unbind_paths, unlooked = [], set()
     for o in driver.arm_paths(C, 'request')[0]:
-        known = {}
-        for a, t in o.st.pc:
-            if a[0] == 'is' and a[2] in VARS and sem.has(a[1], lambda x: x == driver.ARM):
-                known[a[2]] = t
-        is_unbind = known.get('LdapOp::Unbind') is True or all(known.get(v) is False for v in VARS[:3])
-        if not is_unbind:
+        if o.kind == 'div' or absx.pc_variant(o.st.pc, lambda v: v == driver.ARM, 'Some') is not True:
             continue
-        n_unbind += 1
+        is_unbind = sem.variant_truth(o.st.pc, lambda t: t == OP, 'LdapOp::Unbind', VARS)
+        if is_unbind is True:
+            unbind_paths.append(o)
+        elif is_unbind is None and not any(a[0] == 'is' and a[2] in VARS and a[1] == OP for a, t in o.st.pc) and not (o.kind == 'ret' and sem.is_err_result(o.val)):
+            unbind_paths.append(o)
+            unlooked.add(id(o))
+    n_unbind = len(unbind_paths)
+    # (for the message: what the paths that stay in the loop have in common - the tests they all found failed, e.g. the
+    # acknowledgement that could not be delivered because the unbind() future was dropped)
+    fails = lambda o: {absx.fmt(sem.strip_site(a[1]))[:60] for a, t in o.st.pc if a[0] == 'is' and a[2] in ('Ok', 'Some') and not t}
+    staying = [o for o in unbind_paths if o.kind not in ('brk', 'ret') and id(o) not in unlooked]
+    common = sorted(set.intersection(*[fails(o) for o in staying])) if staying else []
+    for o in unbind_paths:
         ctx.add('L9.unbind-ends-the-driver', 'request arm|' + o.kind, loc(req['body']), o.kind in ('brk', 'ret'),
-                'after an Unbind the driver loop goes on (path ends in `%s`): operations still waiting for a response are not failed but hang until the peer closes its side of the connection' % o.kind)
+                'after an Unbind the driver loop goes on (path ends in `%s`%s): operations still waiting for a response are not failed but hang until the peer closes its side of the connection'
+                % (o.kind, ', before the kind of operation is looked at: an Unbind takes this path too' if id(o) in unlooked else (', taken when %s failed' % ' and '.join(common)) if common else ''))
     ctx.floor('L9', 'paths of the request arm for Unbind', n_unbind, 1)
 
     # ---- L6 a driver that hands the connection back (the one-operation mode used while StartTLS is negotiated: its caller keeps
